@@ -120,6 +120,9 @@ func (fg *FG) guard() string { return fg.R[fg.curBlock] }
 
 func (fg *FG) safe(kind string, in ssa.Instruction, goal string) {
 	if fg.c != nil && fg.c.MayPanic && kind != "uwrap" {
+		// a function declared maypanic: the operation is not shown safe, but execution only continues past
+		// it when it did not panic - what follows may rely on that (partial correctness)
+		fg.assume(fmt.Sprintf("(=> %s %s)", fg.guard(), goal))
 		return
 	}
 	name := fmt.Sprintf("safe:%s@%s", kind, fg.instrLabel(in))
